@@ -26,6 +26,8 @@ import (
 	"sort"
 	"strconv"
 	"strings"
+	"sync/atomic"
+	"time"
 
 	"github.com/pingcap/log"
 	tikverr "github.com/tikv/client-go/v2/error"
@@ -63,6 +65,9 @@ func enc(b []byte) string {
 func dec(s string) []byte {
 	if s == "-" {
 		return nil
+	}
+	if s == "_" {
+		return []byte{} // empty but NON-nil: as a bound it must mean "unbounded", exactly like nil
 	}
 	if s[0] == 'r' {
 		x := strings.IndexByte(s, 'x')
@@ -411,6 +416,50 @@ type runner struct {
 
 var pcTotal = map[string]int{}
 
+// ---------- watchdog: a call into the buffer that never returns is a property failure, not a hung check ----------
+type hbInfo struct {
+	seq, op string
+	idx     int
+	printed bool
+}
+
+var hbCount atomic.Uint64
+var hbCur atomic.Value // hbInfo
+
+func heartbeat(seq string, idx int, op string, printed bool) {
+	hbCur.Store(hbInfo{seq, op, idx, printed})
+	hbCount.Add(1)
+}
+
+func watchdog(limit time.Duration) {
+	last, since := hbCount.Load(), time.Now()
+	for {
+		time.Sleep(500 * time.Millisecond)
+		c := hbCount.Load()
+		if c != last {
+			last, since = c, time.Now()
+			continue
+		}
+		if time.Since(since) < limit {
+			continue
+		}
+		info, _ := hbCur.Load().(hbInfo)
+		if info.seq == "" {
+			last, since = c, time.Now()
+			continue
+		}
+		// the main goroutine is stuck inside the implementation: it does not touch the writer any more
+		if !info.printed {
+			fmt.Fprintf(out, "O\t%s\t=>\thang\n", info.op)
+		}
+		fmt.Fprintf(out, "P\tcall-terminates\t%s\t%d\tfail\t%s\tno progress for %v\n", info.seq, info.idx, strings.ReplaceAll(info.op, "\t", " "), limit)
+		fmt.Fprintf(out, "END\n")
+		fmt.Fprintf(out, "PC\tcall-terminates\t%d\n", c)
+		out.Flush()
+		os.Exit(0)
+	}
+}
+
 func pfail(name, seq string, idx int, detail ...string) {
 	fmt.Fprintf(out, "P\t%s\t%s\t%d\tfail\t%s\n", name, seq, idx, strings.Join(detail, "\t"))
 }
@@ -511,12 +560,8 @@ func (rn *runner) snapshotApis(im *impl, lo, hi []byte, rev bool, want string) {
 	if s := kvsStr(l); s != want {
 		pfail("snapshot-apis-agree", rn.id, rn.idx, im.name, "foreach", s, want)
 	}
-	// NEW FINDING (not asserted here, see docs/C08.md): the batched iterator restarts from the end when the
-	// reverse scan reaches the empty key (nextKey = "" is read as "unbounded") and never terminates.
-	if rev && strings.HasSuffix(want, ",-="+want[strings.LastIndexByte(want, '=')+1:]) || rev && strings.HasPrefix(want, "kv:-=") {
-		snap.Close()
-		return
-	}
+	// F25 (fixed by f5829fa): a reverse batched scan over a buffer holding the empty key used to restart forever;
+	// collect() caps a runaway iterator, the watchdog catches a call that never returns.
 	pcount("snapshot-apis-agree")
 	if s := kvsStr(collect(snap.BatchedSnapshotIter(lo, hi, rev))); s != want {
 		pfail("snapshot-apis-agree", rn.id, rn.idx, im.name, "batched", s, want)
@@ -536,6 +581,7 @@ func validPanics(it *art.Iterator) (p bool) {
 
 // step executes one op on both implementations, prints the O line, runs the oracles
 func (rn *runner) step(f []string, staleProbe bool) string {
+	heartbeat(rn.id, rn.idx, strings.Join(f, "\t"), false)
 	mut := isMutator(f[0])
 	var probe *art.Iterator
 	var probeSeq, snapSeq int
@@ -551,6 +597,7 @@ func (rn *runner) step(f []string, staleProbe bool) string {
 	ra := rn.a.exec(f)
 	rr := rn.r.exec(f)
 	fmt.Fprintf(out, "O\t%s\t=>\t%s\n", strings.Join(f, "\t"), ra)
+	heartbeat(rn.id, rn.idx, strings.Join(f, "\t"), true)
 	if f[0] != "seq" {
 		pcount("art-rbt-agree")
 		if ra != rr {
@@ -687,11 +734,13 @@ func (g *gen) pickValue(k []byte) []byte {
 }
 
 func (g *gen) bound() string {
-	switch x := g.rng.Intn(10); {
+	switch x := g.rng.Intn(12); {
 	case x < 3:
 		return "-"
 	case x < 8:
 		return enc(g.pickKey())
+	case x >= 10:
+		return "_" // []byte{}: empty non-nil bound (F26)
 	default:
 		k := cp(g.pickKey())
 		if len(k) > 0 && g.rng.Intn(2) == 0 {
@@ -997,6 +1046,17 @@ func directed() {
 		{"flags", "6c", "1"}, {"flags", "6c", "1"}, {"set", "6c", "76", "-"}, {"flags", "6d", "-"}, {"flags", "6d", "-"},
 		{"cleanup", "1"}, {"flags", "6c", "1"}, {"flags", "6c", "1"},
 	})
+	// F25/F26 regression: empty non-nil bounds ("_") mean unbounded on every iterator of both buffers;
+	// batched reverse snapshot scan over a buffer holding the empty key terminates
+	emit("d-emptybound", [][]string{
+		{"set", "-", "7630", "-"}, {"set", "61", "7631", "-"}, {"flags", "62", "2"},
+		{"iter", "0", "-", "_"}, {"iter", "0", "_", "_"}, {"iter", "0", "_", "-"}, {"iter", "0", "_", "62"}, {"iter", "0", "61", "_"},
+		{"iter", "1", "-", "_"}, {"iter", "1", "_", "_"}, {"iter", "1", "_", "-"}, {"iterf", "-", "_"}, {"iterf", "_", "_"}, {"iterf", "_", "-"},
+		{"siter", "0", "-", "_"}, {"siter", "1", "_", "_"},
+		{"staging"}, {"set", "63", "7632", "-"},
+		{"siter", "0", "-", "_"}, {"siter", "0", "_", "_"}, {"siter", "1", "-", "-"}, {"siter", "1", "_", "_"}, {"siter", "1", "_", "-"}, {"siter", "1", "62", "_"},
+		{"iter", "0", "-", "_"}, {"iter", "1", "_", "_"}, {"release", "1"}, {"iter", "0", "_", "_"},
+	})
 	// F03b witness
 	emit("d-f03b", [][]string{
 		{"set", "78", "6161", "-"}, {"cp"}, {"set", "78", "6262", "-"}, {"revert", "0"}, {"get", "78"},
@@ -1083,6 +1143,11 @@ func main() {
 	log.ReplaceGlobals(zap.NewNop(), &log.ZapProperties{})
 	out = bufio.NewWriterSize(os.Stdout, 1<<20)
 	defer out.Flush()
+	wd := 30
+	if v, err := strconv.Atoi(os.Getenv("VERIF_C08_WATCHDOG_S")); err == nil && v > 0 {
+		wd = v
+	}
+	go watchdog(time.Duration(wd) * time.Second)
 	if len(os.Args) >= 4 && os.Args[1] == "replay" {
 		replay(os.Args[2], os.Args[3])
 	} else {
@@ -1115,6 +1180,7 @@ func main() {
 			}
 		}
 	}
+	pcTotal["call-terminates"] = int(hbCount.Load() / 2)
 	names := make([]string, 0, len(pcTotal))
 	for n := range pcTotal {
 		names = append(names, n)
